@@ -34,9 +34,40 @@ def add_due_times(rng, spec):
             t["due"] = rng.choice([-1, 0, 3, 5, 5, 10, 20])
 
 
+_rev = {"installed": False, "tr": None, "res": None}
+
+
+def install_reverse_contract():
+    """Postcondition on the real BaseProject.reverse_log_information (also when it is called from
+    inside backward_simulate): every log is exactly the previous log read backwards."""
+    if _rev["installed"]:
+        return
+    import functools
+    from .build import all_logs
+    orig = ns.BaseProject.reverse_log_information
+
+    @functools.wraps(orig)
+    def reverse_log_information(self, *a, **k):
+        tr = _rev["tr"]
+        if tr is None:
+            return orig(self, *a, **k)
+        before = {(x, y): list(l) for x, y, l in all_logs(self)}
+        r = orig(self, *a, **k)
+        for x, y, l in all_logs(self):
+            tr.counters["C08.reverse_checks"] += 1
+            if (x, y) in before and list(l) != before[(x, y)][::-1]:
+                tr.violate("C08", "C08/reverse-is-not-the-reversed-log",
+                           "reverse_log_information(): %s.%s is not the previous log read backwards" % (x, y))
+                break
+        return r
+
+    ns.BaseProject.reverse_log_information = reverse_log_information
+    _rev["installed"] = True
+
+
 def make_case(prop, seed, i, tier):
     rng = rng_for(prop, seed, i)
-    spec = G.gen_random(rng, G.profile(facility_rich=rng.random() < 0.3, max_time=60))
+    spec = G.gen_random(rng, G.profile(facility_rich=rng.random() < 0.3, max_time=60, two_parents=0.3))
     add_due_times(rng, spec)
     return dict(prop=prop, i=i, spec=spec, ops=gen_ops(rng))
 
@@ -47,8 +78,13 @@ def run_case(case):
     tr = I.Tracer([M.MonC08()])
     h = Hist(spec, tracer=tr)
     kinds = set()
+    install_reverse_contract()
+    _rev["tr"] = tr
     for op in case["ops"]:
-        err = h.do(op)
+        try:
+            err = h.do(op)
+        finally:
+            pass
         res.count("C08.ops")
         res.count("C08.op." + op[0])
         kinds.add(op[0])
@@ -58,6 +94,7 @@ def run_case(case):
         M.check_alignment(tr, h.p, context="after %s" % (op,))
         if op[0] == "init" and h.p.time != 0:
             tr.violate("C08", "C08/logs-misaligned", "after initialize(): time=%r" % h.p.time)
+    _rev["tr"] = None
     res.absorb(tr, props=("C08",))
     res["nontrivial"] = len(kinds) >= 2
     res["source"] = "history"
